@@ -533,6 +533,15 @@ fn cmd_check(args: &[String]) -> i32 {
         let raw = format!("{out_dir}/replays/{tag}.raw.json");
         let min = format!("{out_dir}/replays/{tag}.json");
         std::fs::write(&raw, serde_json::to_string_pretty(&sc).unwrap()).unwrap();
+        // PBSIM_FAST=1 (used by tools/seeded_matrix.sh): report the raw scenario, no minimisation
+        if std::env::var("PBSIM_FAST").map(|v| !v.is_empty()).unwrap_or(false) {
+            let file = format!("{out_dir}/replays/{tag}.json");
+            let _ = std::fs::rename(&raw, &file);
+            println!("run {k}: {oracle} / {sig}: {}", v.detail);
+            println!("VIOLATION property={} replay={}", v.property, std::fs::canonicalize(&file).map(|p| p.display().to_string()).unwrap_or(file.clone()));
+            reported.push(json!({"run": k, "oracle": oracle, "sig": sig, "detail": v.detail, "replay": file, "minimised": false}));
+            continue;
+        }
         // minimise in a child process (a candidate may hang or crash)
         let exe = std::env::current_exe().unwrap();
         let mut child = Command::new(&exe)
